@@ -54,6 +54,10 @@ CHECKS = {
   "runtime monitoring: real shardView/mergeShardInfo/gossip delegate (through the export shim) fed Raft-consistent update multisets in every permutation (<=6 updates) and through multi-view gossip scripts, judged against the join; live header monitor on a 3-node cluster with forced leader transfers; race detector",
   "After every delivery step each view must equal the join of what reached it and never move to a lower term or from a leader to none; final views must be identical across all deliveries of a multiset (exhaustive for <=6 updates); live: per (observer,node,shard) the term in response headers never decreases and the leader never returns to 0, and headers converge to Raft's answer after transfers.",
   "Multisets are Raft-consistent by construction (one leader per term, one membership per config-change index); convergence bounds are watchdogs (inconclusive on expiry), a stale-leader-after-transfer observation is recorded in the evidence, not judged."),
+ "C10": ("exploration",
+  "runtime monitoring: client-boundary history recording on a real 3-node cluster with one artificially lagging replica; offline history checker (revision-order replay through the reference model, read windows) plus porcupine on register keys; race detector build",
+  "Concurrent histories (puts, deletes, bounded range deletes, transactions incl. empty-branch and read-only ones, linearizable and serializable reads on every node, half of the reads on the lagging replica right after the client's own acknowledged write) are judged: revisions non-zero, distinct and real-time consistent; replay in revision order explains every response; linearizable reads and read-only txns match a state inside their real-time window, serializable reads some existing prefix.",
+  "No client-visible faults injected: a run with a failed/timed-out write is discarded as inconclusive; lag is produced by stalling the apply path of node 3 (AppliedIndexListener); history taken at the engine API the gRPC service calls."),
 }
 
 NOT_YET = {}
